@@ -104,6 +104,7 @@ func cmdCheck(args []string) {
 	v.addLemmas(*verifDir)
 	v.addSweeps()
 
+	tExplore := time.Since(t0).Seconds()
 	timeout := 10
 	if *tier == "thorough" {
 		timeout = 60
@@ -114,7 +115,9 @@ func cmdCheck(args []string) {
 			pending = append(pending, o)
 		}
 	}
+	tSolve0 := time.Now()
 	solverMs := decideAll(pending, timeout, 16, *tier == "thorough")
+	tSolve := time.Since(tSolve0).Seconds()
 	decideRegions(v.Regions)
 
 	// ---- classify ----------------------------------------------------------
@@ -246,8 +249,8 @@ func cmdCheck(args []string) {
 			}
 		}
 	}
-	fmt.Fprintf(os.Stderr, "%s %s: functions=%d obligations=%d discharged=%d bounded=%d violations=%d known=%d errors=%d wall=%.1fs\n",
-		*prop, *tier, len(v.Reports), nObl, nDis, nBounded, violations, len(knownLines), len(v.Errors), wall)
+	fmt.Fprintf(os.Stderr, "%s %s: functions=%d obligations=%d discharged=%d bounded=%d violations=%d known=%d errors=%d wall=%.1fs (load+explore %.1fs, solve %.1fs)\n",
+		*prop, *tier, len(v.Reports), nObl, nDis, nBounded, violations, len(knownLines), len(v.Errors), wall, tExplore, tSolve)
 	if len(v.Errors) > 0 {
 		os.Exit(2)
 	}
@@ -427,20 +430,30 @@ func decideRegions(regs []*Obligation) {
 	}
 	dir, _ := os.MkdirTemp("", "gvc-reg-")
 	defer os.RemoveAll(dir)
-	var wg sync.WaitGroup
 	for gi, n := range names {
-		wg.Add(1)
-		go func(gi int, group []*Obligation) {
-			defer wg.Done()
-			// smallest queries first
-			sort.SliceStable(group, func(i, j int) bool { return len(group[i].Hyps) < len(group[j].Hyps) })
-			for i, r := range group {
-				decide(r, dir, gi*100000+i, 3, false)
-				if r.Status == "covered" {
-					return
+		group := byName[n]
+		// smallest queries first, 16 at a time, stop at the first that still fails
+		sort.SliceStable(group, func(i, j int) bool { return len(group[i].Hyps) < len(group[j].Hyps) })
+		found := false
+		for lo := 0; lo < len(group) && !found && lo < 160; lo += 16 {
+			hi := lo + 16
+			if hi > len(group) {
+				hi = len(group)
+			}
+			var wg sync.WaitGroup
+			for i := lo; i < hi; i++ {
+				wg.Add(1)
+				go func(i int) {
+					defer wg.Done()
+					decide(group[i], dir, gi*100000+i, 3, false)
+				}(i)
+			}
+			wg.Wait()
+			for i := lo; i < hi; i++ {
+				if group[i].Status == "covered" {
+					found = true
 				}
 			}
-		}(gi, byName[n])
+		}
 	}
-	wg.Wait()
 }
